@@ -110,6 +110,17 @@ def step (st : St) (j : Json) : St × Json :=
     let s0 := run (run {} (gs.map .addGraph)) pre
     ({ s0 := s0, deny := (strs? j "deny").getD [], auth := (bool? j "auth").getD false }, Json.mkObj [("r", "reset")])
   | some "send" =>
+    -- an element that carries a vertex AND an edge is the vertex followed by the edge (since fix
+    -- f8b5d8f the server forwards the two separately; before, both were counted, the vertex was
+    -- written twice and the edge dropped)
+    match val? j "v", val? j "e" with
+    | some v, some e =>
+      let jv := Json.mkObj [("g", (val? j "g").getD Json.null), ("v", v)]
+      let je := Json.mkObj [("g", (val? j "g").getD Json.null), ("e", e)]
+      match itemOf? jv st.items.length, itemOf? je st.items.length with
+      | some iv, some ie => ({ st with items := ie :: iv :: st.items }, Json.mkObj [("r", "queued")])
+      | _, _ => (st, Drv.bad "send: cannot decode element")
+    | _, _ =>
     match itemOf? j st.items.length with
     | some it => ({ st with items := it :: st.items }, Json.mkObj [("r", "queued")])
     | none => (st, Drv.bad "send: cannot decode element")
